@@ -232,6 +232,7 @@ func analyseWalk(gc *GCNF, k int, foreign map[string]lin) (walkInfo, []string, b
 	}
 	var slots []slot
 	var bad []string
+	nilStart := false
 	// ratio[j]: +1 when pointer j moves with the counter (next while counting up, prev while counting down), -1 when it moves
 	// against it (next while counting down: `for steps := index-1; steps > 0; steps--`): pos(slot) = ratio·counter + d
 	ratio := map[int]int{}
@@ -295,7 +296,18 @@ func analyseWalk(gc *GCNF, k int, foreign map[string]lin) (walkInfo, []string, b
 				break
 			}
 			if isNil {
-				continue // nil stands for "before the first" / "after the last": fixed by the other entries or the back edges
+				// nil stands for "before the first" / "after the last" for a pointer that trails another one; a pointer
+				// that is advanced through its own next/prev must not enter as nil: the first round dereferences it
+				for _, b := range backs {
+					if j < len(b.Exit.Args) {
+						bv := b.Exit.Args[j]
+						if bv.Op == "load" && len(bv.Args) == 1 && bv.Args[0].Op == "fa" && (bv.Args[0].Leaf == "next" || bv.Args[0].Leaf == "prev") && len(bv.Args[0].Args) == 1 && bv.Args[0].Args[0].String() == phi(j) {
+							bad = append(bad, fmt.Sprintf("loop %d: pointer %s enters as nil and is advanced through its own .%s — the walk starts nowhere", k, phi(j), bv.Args[0].Leaf))
+							nilStart = true
+						}
+					}
+				}
+				continue
 			}
 			dd := v.add(scale(linOf(e.Exit.Args[cslot]), ratio[j]), -1)
 			if d != nil && d.String() != dd.String() {
@@ -322,6 +334,9 @@ func analyseWalk(gc *GCNF, k int, foreign map[string]lin) (walkInfo, []string, b
 		slots = append(slots, slot{j, *d})
 	}
 	if len(slots) == 0 {
+		if nilStart {
+			return walkInfo{describe: fmt.Sprintf("loop %d starts at nil", k)}, bad, true
+		}
 		return walkInfo{}, nil, false
 	}
 	// nil-entered slots that copy a known slot: offset = that slot's offset - step (it trails by one round)
@@ -644,13 +659,42 @@ func ruleR39(c *Ctx) *RuleResult {
 								}
 							}
 						}
+						// a comparison of the end field with an element: != says the removed element is not that end; == says
+						// it is, and then the end must move
+						eqEnd, neEnd := false, false
+						isAnyEnd := func(t *Term) bool {
+							return t.Op == "load" && len(t.Args) == 1 && t.Args[0].Op == "fa" && (t.Args[0].Leaf == "first" || t.Args[0].Leaf == "last") && t.Args[0].Args[0].String() == "p:0"
+						}
 						for _, a := range g.Guards {
 							if (a.Op == "!=" || a.Op == "==") && len(a.Args) == 2 {
-								for _, x := range a.Args {
+								for i, x := range a.Args {
 									if x.Op == "load" && len(x.Args) == 1 && x.Args[0].Op == "fa" && x.Args[0].Leaf == f && x.Args[0].Args[0].String() == "p:0" {
 										known = true
+										y := a.Args[1-i]
+										if y.String() == "#:nil" || isAnyEnd(y) {
+											continue
+										}
+										if a.Op == "==" {
+											eqEnd = true
+										} else {
+											neEnd = true
+										}
 									}
 								}
+							}
+						}
+						if eqEnd && !neEnd && !stored {
+							bad = append(bad, fmt.Sprintf("a removing path knows that the removed element is the %s one and leaves %s pointing at it: %s", f, f, trunc(guardsString(g), 240)))
+						}
+						if neEnd && !eqEnd && stored {
+							moved := false
+							for _, ef := range g.Effects {
+								if storeToField(ef, f) && ef.Args[0].Args[0].String() == "p:0" && !(ef.Args[1].Op == "load" && len(ef.Args[1].Args) == 1 && ef.Args[1].Args[0].Op == "fa" && ef.Args[1].Args[0].Leaf == f) {
+									moved = true
+								}
+							}
+							if moved {
+								bad = append(bad, fmt.Sprintf("a removing path moves %s although it knows that the removed element is not the %s one: %s", f, f, trunc(guardsString(g), 240)))
 							}
 						}
 						// removal by index knows the end from the index as well: index != 0 / index != size-1
@@ -782,6 +826,59 @@ func ruleR39(c *Ctx) *RuleResult {
 					if !emptyNow {
 						bad = append(bad, fmt.Sprintf("a new element whose next is the current head becomes the tail on a path that does not know the list is empty at that moment (a test taken before the loop says nothing about later rounds): %s", trunc(g.String(), 240)))
 					}
+				}
+			}
+			// EMPTYBOTH: a path that knows the list is empty now, links one new element (size + 1) and points one end at a
+			// fresh element must point the other end at one too — the next round / call relies on size > 0 ⇒ both ends set
+			for _, g := range gc.GCs {
+				emptyNow := false
+				for _, a := range g.Guards {
+					if a.Op != "==" || len(a.Args) != 2 {
+						continue
+					}
+					for i := 0; i < 2; i++ {
+						k, x := a.Args[i], a.Args[1-i]
+						if !(x.Op == "load" && len(x.Args) == 1 && x.Args[0].Op == "fa" && len(x.Args[0].Args) == 1 && x.Args[0].Args[0].String() == "p:0") {
+							continue
+						}
+						m := verRe.FindStringSubmatch(x.Leaf)
+						if m == nil || atoiOr(m[2], 1) != 0 {
+							continue
+						}
+						if k.String() == "#:0" && x.Args[0].Leaf == "size" {
+							emptyNow = true
+						}
+					}
+				}
+				if !emptyNow {
+					continue
+				}
+				inc := 0
+				ends := map[string]bool{}
+				for _, ef := range g.Effects {
+					if storeToField(ef, "size") && ef.Args[0].Args[0].String() == "p:0" {
+						if ef.Args[1].Op == "+" && len(ef.Args[1].Args) == 2 && ef.Args[1].Args[0].String() == "#:1" {
+							inc++
+						} else {
+							inc += 100
+						}
+					}
+					for _, f := range []string{"first", "last"} {
+						if storeToField(ef, f) && ef.Args[0].Args[0].String() == "p:0" && ef.Args[1].Op == "new" {
+							ends[f] = true
+						}
+					}
+				}
+				if inc != 1 || len(ends) == 0 {
+					continue
+				}
+				n++
+				if len(ends) != 2 {
+					miss := "first"
+					if ends["first"] {
+						miss = "last"
+					}
+					bad = append(bad, fmt.Sprintf("a path that links a new element into an empty list sets only one end: %s stays nil although the list now has an element: %s", miss, trunc(guardsString(g), 200)))
 				}
 			}
 			// HEADTAIL: making the head the tail (last = first) or the tail the head (first = last) on a path that allocates
